@@ -508,6 +508,11 @@ class Check:
               "wall_s": round(time.time() - self.t0, 1), "violations": len(self.violations)}
         json.dump(ev, open(os.path.join(ROOT, "evidence", self.prop + ".json"), "w"), indent=1)
         sys.stdout.flush()
+        if not self.violations and self.unconfirmed:
+            # something diverged but could not be reproduced alone: no verdict (never a violation, never "held")
+            print("INFRA-ERROR property=%s: %d divergence(s) were seen but not reproduced in isolation (see UNCONFIRMED lines): no verdict"
+                  % (self.prop, self.unconfirmed))
+            return 2
         return 1 if self.violations else 0
 
 
